@@ -35,10 +35,28 @@ def main():
         tier = "quick"
     t0 = time.time()
     mod = importlib.import_module(f"props.{prop.lower()}")
+    # how hard to look: if a source file this property is anchored in differs from the tree the machinery was validated on,
+    # the correspondence and the oracle run at the thorough sizes (a difference is never a violation by itself)
+    run_tier, escalated = tier, []
+    notes = []
+    try:
+        import fingerprint
+        anchored = set()
+        for line in open(f"{C.ROOT}/properties.jsonl"):
+            pj = json.loads(line)
+            if pj["id"] == prop:
+                anchored = set(pj.get("anchors", {}).get("files", []))
+        anchored |= set(getattr(mod, "EXTRA_FILES", []))
+        escalated = [f for f in fingerprint.changed() if f in anchored or not anchored]
+        if escalated and tier == "quick" and not os.environ.get("VERIF_NO_ESCALATE"):
+            run_tier = "thorough"
+            print(f"note: {', '.join(escalated)} differ(s) from the fingerprinted tree: correspondence and oracle run at thorough size")
+            notes.append("escalated to thorough sizes: " + ", ".join(escalated) + " differ from the fingerprinted tree")
+    except Exception as e:
+        print("note: fingerprint comparison unavailable:", repr(e))
     os.makedirs(C.REPLAY, exist_ok=True)
     os.makedirs(f"{C.ROOT}/evidence", exist_ok=True)
     broken = []          # (what, detail)
-    notes = []
     discharged = 0
     axioms = []
 
@@ -102,7 +120,7 @@ def main():
     res = {"evaluations": 0, "compared": 0, "undecided": 0, "disagreements": [], "failures": [], "samples": [], "distribution": {}}
     try:
         C.build_harness()
-        res = mod.correspondence(tier, seed)
+        res = mod.correspondence(run_tier, seed)
     except Broken as b:
         broken.append((b.what, b.detail))
     except Exception as e:
@@ -115,7 +133,7 @@ def main():
     # 7 deeper search when something no longer checks and no failing input is at hand yet
     if broken and not failures and hasattr(mod, "search"):
         try:
-            failures += mod.search(tier, seed, res)
+            failures += mod.search(run_tier, seed, res)
         except Exception as e:
             notes.append("search failed: " + repr(e))
 
